@@ -293,3 +293,23 @@ PROPS["C15"] = dict(
 for _p in PROPS.values():
     _p.setdefault("technique", TECH)
     _p.setdefault("explanation", "")
+
+PROPS["C17"] = dict(
+    level="proof",
+    verus=["c17_generic"],
+    labels=["C17."],
+    kani=[],
+    witness=["c17_keys.rs"],
+    trusted=["key_from_selector (three regexes + CSS unescaping): key_spec is uninterpreted; assumed only that a key starts with the selector's own first character. Its behaviour on concrete selectors is covered by witness inputs replayed on the real crate (vf/witness/c17_keys.rs), not by a contract",
+             "CosmeticFilter::plain_css_selector (uninterpreted)",
+             "R7 lift: `if let Some(b) = map.get_mut(&k) { b.push(v) } else { map.insert(k, vec![v]) }` = append under a key (HashMap::get_mut has no vstd specification)",
+             "R5/R6 lifts in hidden_class_id_selectors: into_iter() of the caller's collections materialised, <T as AsRef<str>>::as_ref uninterpreted, HashSet<String>::contains(&str) / HashMap<String,_>::get(&str) = lookup by text, extend(iter().filter(!excepted).map(to_owned)) = append of the unexcepted elements in order",
+             "core::fmt: format!(\".{}\", s) / format!(\"#{}\", s) is the prefix character followed by s (axioms for these two literals)",
+             "String values are their text (string_ext; the same fact the HashSet/HashMap key model for String relies on); UTF-8 encoding is injective",
+             "the composition 'a rule filed as simple/complex under n is returned exactly for the name n' follows from the two contracts by reading them side by side; it is not mechanised as one lemma"],
+    assumptions=[],
+    level_text="Verus proves, for every cache state and every rule, that add_generic_filter files a plain selector in exactly one store - the simple or complex class/id store named by its leading key, or the misc store served with the per-site resources when it has no class/id key or none can be extracted - and leaves every other store unchanged; "
+               "and, for any collections of class names, ids and exceptions, that hidden_class_id_selectors returns exactly, in order, for each name: the simple rule `.name` / `#name` if stored and not excepted, then the complex rules stored under it minus the excepted ones",
+    level_note="the leading-key extraction (regexes, CSS unescaping) is outside the contracts; witness inputs cover concrete selectors only",
+    design_ref="DESIGN.md section 10.3, C17",
+)
